@@ -1,4 +1,5 @@
 import dis
+import re
 import yaml
 from typing import (
     Any,
@@ -53,6 +54,11 @@ def _rename_in_exiting(block: BasicBlock, old: str, new: str) -> None:
         block = inner
 
 
+# Shapes of the names handed out by the NameGenerator.
+_GENERATED_BLOCK_NAME = re.compile(r"^(.+)_(?:block|region)_([0-9]+)$")
+_GENERATED_VAR_NAME = re.compile(r"^__scfg_(.+)_var_([0-9]+)__$")
+
+
 @dataclass(frozen=True)
 class NameGenerator:
     """Unique Name Generator.
@@ -68,6 +74,26 @@ class NameGenerator:
     """
 
     kinds: dict[str, int] = field(default_factory=dict)
+
+    def reserve(self, name: str) -> None:
+        """Reserve a name that is already in use.
+
+        If the given name has the shape of a generated block, region or
+        variable name, the index of its kind is advanced past it, such that
+        the same name will never be handed out by this generator.
+
+        Parameters
+        ----------
+        name: str
+            The name of an existing block, region or variable.
+        """
+        match = _GENERATED_VAR_NAME.match(
+            name
+        ) or _GENERATED_BLOCK_NAME.match(name)
+        if match is not None:
+            kind, idx = match.group(1), int(match.group(2))
+            if self.kinds.get(kind, 0) <= idx:
+                self.kinds[kind] = idx + 1
 
     def new_block_name(self, kind: str) -> str:
         """Generate a new unique name for a block of the specified kind.
@@ -188,6 +214,14 @@ class SCFG(Sized):
     region: RegionBlock = field(init=False, compare=False)
 
     def __post_init__(self) -> None:
+        # Names that are already present must never be generated again.
+        for block in self.graph.values():
+            self.name_gen.reserve(block.name)
+            if isinstance(block, SyntheticBranch):
+                self.name_gen.reserve(block.variable)
+            elif isinstance(block, SyntheticAssignment):
+                for variable in block.variable_assignment:
+                    self.name_gen.reserve(variable)
         name = self.name_gen.new_region_name("meta")
         new_region = RegionBlock(
             name=name,
